@@ -17,7 +17,7 @@ WITNESSES = ["permuted_columns", "extra_column", "reindexed", "extra_rows", "the
 NONTRIVIAL = WITNESSES
 
 COLS = ["MinTemp", "MaxTemp", "Precipitation", "ReferenceET", "Date"]
-EXTRA = ["none", "front", "middle", "end", "nan_gaps"]
+EXTRA = ["none", "front", "middle", "end", "nan_gaps", "clash_names"]
 INDEX = ["range", "shift1000", "reversed_labels", "strings", "date"]
 ROWS = ["none", "lead400", "trail400", "both", "lead_gap", "lead_dup", "lead_labels", "trail_gap"]
 CROPS = {
@@ -172,6 +172,13 @@ def transform(df, scn, spec):
         wind[::11] = np.nan
         wind[5:9] = np.nan
         d.insert(2, "WindSpeed", wind)
+    elif scn["extra"] == "clash_names":
+        # unrelated user columns whose NAMES coincide with names the library uses internally for derived columns
+        n = len(d)
+        d.insert(1, "gdd", np.linspace(40.0, 0.0, n))
+        d.insert(3, "season", np.arange(n) % 7)
+        d["gdd_cum"] = np.linspace(0.0, 9000.0, n)
+        d["year"] = 1900
     elif scn["extra"] != "none":
         junk = np.linspace(-50.0, 900.0, len(d))
         pos = {"front": 0, "middle": 2, "end": len(cols)}[scn["extra"]]
